@@ -243,11 +243,14 @@ def leaves(expr, defs, _seen=None, through_calls=True):
     return out
 
 
+def clone(expr):
+    """cheap structural copy of an expression (no parent links, which would drag the whole module along)"""
+    return ast.parse(ast.unparse(expr), mode="eval").body
+
+
 def expand(expr, defs, depth=6):
     """Substitute single-assignment locals by their definitions (for structural matching).
     Returns a new AST (copy); leaves multiply-assigned names alone."""
-    import copy
-
     class T(ast.NodeTransformer):
         def __init__(self):
             self.stack = []
@@ -257,12 +260,12 @@ def expand(expr, defs, depth=6):
                 v = defs.single(n.id)
                 if v is not None and isinstance(v, ast.AST):
                     self.stack.append(n.id)
-                    r = self.visit(copy.deepcopy(v))
+                    r = self.visit(clone(v))
                     self.stack.pop()
                     return r
             return n
 
-    return T().visit(copy.deepcopy(expr))
+    return T().visit(clone(expr))
 
 
 def returns_of(fn_node):
